@@ -73,6 +73,31 @@ def run(tier):
                              {**idn, "query": c["Q"][i], "want_mean": want_gm[i], "got_mean": g1, "want_cov": want_gc[i], "got_cov": c1},
                              site="GpRegressor.gradient:single")
                 break
+        # (a) the scores evaluated at OTHER hyper-parameters in between must not change the derivative predictions of the fitted model;
+        # (b) whole-number query points given as integers (array, list) give the derivatives of the equal float points
+        try:
+            other = hp + 0.37
+            with np.errstate(all="ignore"):
+                gp.marginal_likelihood(other)
+                gp.loo_likelihood(other)
+                gp.marginal_likelihood_gradient(other)
+            gm_c, gc_c = gp.gradient(q)
+            dm_c, dv_c = gp.spatial_derivatives(q)
+            qi = Q.astype(int) if d > 1 else Q[:, 0].astype(int)
+            gm_i, gc_i = gp.gradient(qi)
+            dm_i, dv_i = gp.spatial_derivatives(qi)
+            dm_l, dv_l = gp.spatial_derivatives(qi.tolist())
+            ck.case(str(idn) + "again")
+            same = lambda a, b: np.asarray(a, dtype=float).shape == np.asarray(b, dtype=float).shape and np.allclose(np.asarray(a, dtype=float), np.asarray(b, dtype=float), rtol=1e-12, atol=1e-12 * scale)
+            if not (same(gm_c, gm_b) and same(gc_c, gc_b) and same(dm_c, dm_b) and same(dv_c, dv_b)):
+                ck.violation("derivative predictions of the fitted model do not depend on scores evaluated at other hyper-parameters in between",
+                             {**idn, "gradient_mean_before": gm_b, "gradient_mean_after": gm_c}, site="GpRegressor.gradient:stale-state")
+            if not (same(gm_i, gm_b) and same(gc_i, gc_b) and same(dm_i, dm_b) and same(dv_i, dv_b) and same(dm_l, dm_b) and same(dv_l, dv_b)):
+                ck.violation("integer-typed query points give the derivative predictions of the equal float points",
+                             {**idn, "float_points": dm_b, "integer_points": dm_i, "variance_derivative_float": dv_b, "variance_derivative_integer": dv_i},
+                             site="GpRegressor.spatial_derivatives:dtype")
+        except Exception as ex:
+            ck.violation("derivative prediction raised (repeated / integer-typed query)", {**idn, "error": repr(ex)[:300]}, site="GpRegressor.gradient")
         if len(ck.samples) < 3 and d == 2 and pb["mean"]["k"] != "const":
             ck.sample({**idn, "queries": c["Q"], "spec_gradient_mean": want_gm.tolist(), "spec_gradient_cov_q1": want_gc[0].tolist()})
     ck.traces += len(probs)
